@@ -88,6 +88,7 @@ func NewEnv(repo, verif, tier string, seed int64) (*Env, error) {
 	e := &Env{Repo: repo, Verif: verif, Scratch: scratch, Seed: seed, Tier: tier, Parallel: 14}
 	os.MkdirAll(filepath.Join(scratch, "tmp"), 0o755)
 	e.GoCache = filepath.Join(verif, ".cache", "gocache")
+	trimGoCache(filepath.Join(verif, ".cache"))
 	os.MkdirAll(e.GoCache, 0o755)
 	e.TrSrc, err = os.ReadFile(filepath.Join(verif, "assets", "tr", "tr.go"))
 	if err != nil {
@@ -99,7 +100,44 @@ func NewEnv(repo, verif, tier string, seed int64) (*Env, error) {
 	return e, nil
 }
 
+// trimGoCache keeps the build cache of the generated programs from filling the disk (every
+// run compiles thousands of packages nobody will compile again; go itself only drops entries
+// after days): every 30th run that finds no other run active starts with an empty cache.
+func trimGoCache(cacheDir string) {
+	active := filepath.Join(cacheDir, "active")
+	os.MkdirAll(active, 0o755)
+	me := filepath.Join(active, fmt.Sprint(os.Getpid()))
+	os.WriteFile(me, nil, 0o644)
+	others := false
+	if ents, err := os.ReadDir(active); err == nil {
+		for _, en := range ents {
+			if en.Name() == fmt.Sprint(os.Getpid()) {
+				continue
+			}
+			if _, err := os.Stat("/proc/" + en.Name()); err == nil {
+				others = true
+			} else {
+				os.Remove(filepath.Join(active, en.Name()))
+			}
+		}
+	}
+	countFile := filepath.Join(cacheDir, "runs.count")
+	n := 0
+	if b, err := os.ReadFile(countFile); err == nil {
+		fmt.Sscan(string(b), &n)
+	}
+	n++
+	if n >= 30 && !others {
+		if fi, err := os.Lstat(filepath.Join(cacheDir, "gocache")); err == nil && fi.Mode()&os.ModeSymlink == 0 {
+			os.RemoveAll(filepath.Join(cacheDir, "gocache"))
+		}
+		n = 0
+	}
+	os.WriteFile(countFile, []byte(fmt.Sprint(n)), 0o644)
+}
+
 func (e *Env) Close() {
+	os.Remove(filepath.Join(e.Verif, ".cache", "active", fmt.Sprint(os.Getpid())))
 	if os.Getenv("VERIF_KEEP") != "" {
 		fmt.Println("KEEP scratch:", e.Scratch)
 		return
